@@ -212,9 +212,16 @@ func upcastDomain(lines []string) []string {
 		case f[0] == "cleartype" && len(f) == 2:
 			bus.ClearUpcastsForType(tyName(atoi(f[1])))
 			out = append(out, "cleartype")
-		case f[0] == "replay" && len(f) == 6:
-			off, ts, ty, d, opt := atoi(f[1]), atoi(f[2]), atoi(f[3]), natList(f[4]), atoi(f[5])
-			store.ev = &eb.StoredEvent{Offset: eb.Offset(fmt.Sprintf("o%d", off)), Type: tyName(ty), Data: listToData(d, opt), Timestamp: time.Unix(0, int64(ts)).UTC()}
+		case (f[0] == "replay" && len(f) == 6) || (f[0] == "replayagain" && len(f) == 1):
+			if f[0] == "replay" {
+				off, ts, ty, d, opt := atoi(f[1]), atoi(f[2]), atoi(f[3]), natList(f[4]), atoi(f[5])
+				store.ev = &eb.StoredEvent{Offset: eb.Offset(fmt.Sprintf("o%d", off)), Type: tyName(ty), Data: listToData(d, opt), Timestamp: time.Unix(0, int64(ts)).UTC()}
+			} else if store.ev == nil {
+				out = append(out, "replayagain skip")
+				continue
+			}
+			// replayagain: the store hands out the very same *StoredEvent once more (as MemoryStore does): an
+			// upcasting replay must not have written into it
 			calls, errCalls = nil, nil
 			var seen *eb.StoredEvent
 			n := 0
